@@ -19,7 +19,7 @@ _FS = {getattr(tokenize, n, -1) for n in ("FSTRING_START", "FSTRING_MIDDLE", "FS
 def _canon(src):
     try:
         return astcanon.root_canon(ast.parse(src))
-    except (SyntaxError, ValueError, RecursionError, MemoryError):
+    except (SyntaxError, ValueError, RecursionError, MemoryError, SystemError):
         return None
 
 
